@@ -11,11 +11,11 @@ monitors and compared with runs of the extracted model (ocaml/c09r_driver.ml).
 
 ops of the second run (go result | model result):
   e2e   concurrent lifecycle program; go = ok | HANG:… | LEAK:… | PANIC:…; model = ok | FAIL:<monitor names>
-        (late_fetch, late_commit = the two clauses of mon_after_close; silent; leave; leave_strict)
+        (late_fetch, late_commit = the two clauses of mon_after_close; silent; leave)
   det   deterministic single-threaded scenario: the results of every step, on both sides
   cac   n CommitMessages calls after Close returned: <cp>:<ctx>:<nil>:<oth> counts; the model echoes
-        them when every observed outcome is one the model allows
-  nlv   deterministic replay of "no LeaveGroup after a failed re-join": lv=<LeaveGroup count>
+        them when every observed outcome is one the model allows (regression of /repo 0aeb2fd: all cp)
+  nlv   deterministic regression of /repo da142dd (LeaveGroup after a failed re-join): lv=<LeaveGroup count>
 """
 import hashlib, json, os
 import checklib as L
@@ -48,19 +48,13 @@ ASSUMPTIONS = [
     "Reader half: WatchPartitionChanges is off in the model (the harness switches it on in some scenarios; the monitors do not depend on it)",
 ]
 
-KEY_COMMIT = "C09-commit-after-close-enqueues"
-KEY_FETCH = "C09-fetch-after-close-buffered"
-KEY_LEAVE = "C09-no-leave-after-failed-rejoin"
-WHAT = {
-    KEY_COMMIT: "Reader.CommitMessages after (or racing with) Close can enqueue its request into r.commits instead of returning io.ErrClosedPipe: "
-                "with CommitInterval = 0 the call then blocks until its own context ends (forever with context.Background()), with CommitInterval > 0 it "
-                "returns nil for a commit that is never sent (select in CommitMessages has no priority for <-r.stctx.Done(); theorem C09_r_after_close_commit_refuted)",
-    KEY_FETCH: "Reader.FetchMessage / ReadMessage after Close returned deliver the messages (and error items) still buffered in r.msgs before io.EOF; in group "
-               "mode ReadMessage then fails with io.ErrClosedPipe in its commit and the message is dropped (theorem C09_r_after_close_fetch_refuted)",
-    KEY_LEAVE: "Reader.Close / ConsumerGroup.Close send no LeaveGroup for the member id the coordinator had handed out when a later JoinGroup request failed "
-               "(joinGroup returns \"\" on every error, the id is forgotten; the member stays in the group until its session times out; theorem "
-               "C09_r_close_post_leave_strict_refuted)",
-}
+# regressions of three defects fixed in /repo (43be141, 0aeb2fd, da142dd); a reappearance is an ordinary violation
+WHAT_COMMIT = ("Reader.CommitMessages after (or racing with) Close did not return io.ErrClosedPipe: it enqueued its request into r.commits "
+               "(then blocks until its own context ends / returns nil for a commit that is never sent) — theorem C09_r_after_close")
+WHAT_FETCH = ("Reader.FetchMessage / ReadMessage that began after Close returned did not return io.EOF (a buffered message or error item was "
+              "delivered, or the call waited) — theorem C09_r_after_close")
+WHAT_LEAVE = ("Reader.Close returned without a LeaveGroup attempt for the member id the coordinator had handed out (no fault on the leave "
+              "path, member not evicted) — theorem C09_r_close_post_leave")
 
 
 def setup():
@@ -119,9 +113,7 @@ def reader_failures_of_case(c):
         for part in go.split("+"):
             if part == "ok":
                 continue
-            if part.startswith("HANG:call") and "commit-never" in tags:
-                out.append(("property", WHAT[KEY_COMMIT], KEY_COMMIT))
-            elif part.startswith("HANG:worker"):
+            if part.startswith("HANG:worker"):
                 out.append(("correspondence", "a c09r worker process overran its deadline: " + part, None))
             elif part.startswith("HANG:close"):
                 out.append(("property", "Reader.Close (or CloseIdleConnections) did not return within the watchdog: " + part, None))
@@ -142,22 +134,14 @@ def reader_failures_of_case(c):
             excused = any(t in ("leave-faulted", "evicted") for t in tags)
             for nm in names:
                 if nm == "late_fetch":
-                    out.append(("property", WHAT[KEY_FETCH], KEY_FETCH))
+                    out.append(("property", WHAT_FETCH, None))
                 elif nm == "late_commit":
-                    out.append(("property", WHAT[KEY_COMMIT], KEY_COMMIT))
+                    out.append(("property", WHAT_COMMIT, None))
                 elif nm == "silent":
                     out.append(("property", "a Heartbeat / OffsetCommit / Fetch / JoinGroup / SyncGroup request reached the broker after Reader.Close had returned", None))
                 elif nm == "leave":
                     if not excused:
-                        out.append(("property", "Reader.Close returned without a LeaveGroup request for the member id the coordinator had handed out "
-                                                "(no fault on the leave path, member not evicted, no re-join attempted)", None))
-                elif nm == "leave_strict":
-                    if "leave" in names or excused:
-                        continue
-                    jc = [t for t in tags if t.startswith("member-error=join:")]
-                    if jc and all(t == "member-error=join:19" for t in jc):
-                        continue    # UnknownMemberID: the coordinator does not hold the member any more
-                    out.append(("property", WHAT[KEY_LEAVE], KEY_LEAVE))
+                        out.append(("property", WHAT_LEAVE, None))
                 else:
                     out.append(("correspondence", "unknown verdict of the c09r model driver: " + nm, None))
         return out
@@ -167,8 +151,8 @@ def reader_failures_of_case(c):
         elif go != model:
             out.append(("correspondence", f"deterministic lifecycle scenario: implementation {go} / run of the model {model}", None))
         res = go.split(",")
-        if "D" in res and "msg" in res[res.index("D"):]:
-            out.append(("property", WHAT[KEY_FETCH], KEY_FETCH))
+        if "D" in res and any(x not in ("eof", "oth") for x in res[res.index("D") + 1:]):
+            out.append(("property", WHAT_FETCH, None))
         return out
     if op == "cac":
         if go.startswith(("HANG", "PANIC")):
@@ -179,7 +163,7 @@ def reader_failures_of_case(c):
         try:
             cp, cx, nl, ot = [int(x, 16) for x in go.split(":")]
             if cx + nl + ot > 0:
-                out.append(("property", WHAT[KEY_COMMIT], KEY_COMMIT))
+                out.append(("property", WHAT_COMMIT, None))
         except ValueError:
             out.append(("correspondence", "unreadable cac result " + go[:100], None))
         return out
@@ -193,7 +177,7 @@ def reader_failures_of_case(c):
         elif lv != mlv:
             out.append(("correspondence", f"failed-re-join scenario: implementation {go}, model {model}", None))
         if lv == "0" and _field(go, "rejoin") not in (None, "0"):
-            out.append(("property", WHAT[KEY_LEAVE], KEY_LEAVE))
+            out.append(("property", WHAT_LEAVE + " (after a failed re-join)", None))
         return out
     return [("correspondence", "unknown op of cmd/c09r: " + op, None)]
 
